@@ -120,12 +120,17 @@ def _case(draw):
     q = draw(st.tuples(st.integers(-3, 3), st.integers(-3, 3), st.integers(-3, 3), st.integers(-3, 3)))
     if all(x == 0 for x in q):
         q = (1, 1, 0, 0)
-    return {"kind": kind, "mols": mols, "J": J, "pols": pols, "quat": list(q), "scale": draw(st.sampled_from([0.5, 2.0, 1.5])),
+    return {"kind": kind, "mols": mols, "J": J, "pols": pols, "quat": list(q), "scale": draw(st.sampled_from([0.5, 2.0, 1.5, 0.01, 0.003])),
             "t2i": draw(st.integers(0, 5)), "shape": draw(st.sampled_from(["Gaussian", "Gaussian", "Lorentzian"])),
             # Lorentzian shapes: a common dephasing time unless this flag is set
             "deph_distinct": draw(st.sampled_from([False, False, False, True])),
             # order in which the parts of the response are read (reading must not change anything)
-            "read_order": draw(st.lists(st.sampled_from(["R", "N", "T"]), min_size=0, max_size=5))}
+            "read_order": draw(st.lists(st.sampled_from(["R", "N", "T"]), min_size=0, max_size=5)),
+            # earlier settings of the same LabSetup object: "detection" = the same three pulse polarisations with
+            # another detection polarisation, "all" = four other polarisations; and a second polarisation tuple with
+            # which existing pathway objects are averaged again on the re-set lab object
+            "lab_history": draw(st.sampled_from([None, None, "detection", "all"])),
+            "reaverage": draw(st.booleans())}
 
 
 def strategy(tier):
@@ -147,7 +152,8 @@ class ReadChanged(HarnessError):
         self.part, self.dev, self.order = part, dev, order
 
 
-def response(qr, mols, J, pols, t2i, shape, mult=2, want_pathways=False, deph_common=None, read_order=None):
+def response(qr, mols, J, pols, t2i, shape, mult=2, want_pathways=False, deph_common=None, read_order=None,
+             lab_history=None, want_lab=False):
     """(REPH, NONR, TOTAL [, pathways, aggregate]) of the mock calculator for the given system"""
     from quantarhei.spectroscopy.mocktwodcalculator import MockTwoDResponseCalculator
     n = len(mols)
@@ -182,6 +188,9 @@ def response(qr, mols, J, pols, t2i, shape, mult=2, want_pathways=False, deph_co
         calc.bootstrap(rwa=12100.0, shape=shape)
     agg.diagonalize()
     lab = qr.LabSetup()
+    for hp in (lab_history or []):
+        # the laboratory set-up object had other polarisations before (e.g. an analyser scan)
+        lab.set_pulse_polarizations(pulse_polarizations=(hp[0], hp[1], hp[2]), detection_polarization=hp[3])
     lab.set_pulse_polarizations(pulse_polarizations=(pols[0], pols[1], pols[2]), detection_polarization=pols[3])
     pw = {}
     t2 = float(t2axis.data[t2i])
@@ -197,6 +206,8 @@ def response(qr, mols, J, pols, t2i, shape, mult=2, want_pathways=False, deph_co
             if not numpy.array_equal(later, reads[k][0]):
                 raise ReadChanged(k, float(numpy.max(numpy.abs(later - reads[k][0]))), order)
     out = [reads["R"][0], reads["N"][0], reads["T"][0]]
+    if want_pathways and want_lab:
+        return out[0], out[1], out[2], pw[str(t2)], agg, lab
     if want_pathways:
         return out[0], out[1], out[2], pw[str(t2)], agg
     return out[0], out[1], out[2]
@@ -215,15 +226,26 @@ def check_case(case, ctx):
     ctx.label(kind, "N=%d" % n, shape, "t2=%d" % t2i, "nonparallel-pols" if nonpar else "parallel-pols")
     tag = kind + "/" + shape + ("/distinct-dephasing" if distinct else "")
 
+    hist = None
+    if case.get("lab_history") == "detection":
+        alt = numpy.cross(pols[3], [0.3, 0.5, 0.81])
+        alt = alt / numpy.linalg.norm(alt) if numpy.linalg.norm(alt) > 1e-9 else numpy.array([0.0, 1.0, 0.0])
+        hist = [[pols[0], pols[1], pols[2], alt]]
+    elif case.get("lab_history") == "all":
+        hist = [[pols[1], pols[2], pols[3], pols[0]], [pols[3], pols[0], pols[1], pols[2]]]
+    if hist:
+        ctx.label("lab-object-reused:" + case["lab_history"])
+    lab = None
     try:
         ok, r = guarded(ctx, "response", lambda: response(qr, mols, J, pols, t2i, shape, want_pathways=True, deph_common=dc,
-                                                          read_order=case.get("read_order")), tag)
+                                                          read_order=case.get("read_order"), lab_history=hist,
+                                                          want_lab=True), tag)
     except ReadChanged as e:
         ctx.fail("reading-changes-the-response", tag, part=e.part, change=e.dev, order="".join(e.order))
         return
     if not ok:
         return
-    reph, nonr, totl, pws, agg = r
+    reph, nonr, totl, pws, agg, lab = r
     peak = max(1e-300, float(numpy.max(numpy.abs(totl))), float(numpy.max(numpy.abs(reph))))
     n_esa = sum(1 for p in pws if "f" in str(p.pathway_name))
     ctx.mark_nontrivial(n >= 2 and n_esa >= 1 and noncol and nonpar)
@@ -249,6 +271,27 @@ def check_case(case, ctx):
             worst = max(worst, dev / max(sc, 1e-300))
         ctx.bound("orientational-prefactor", worst, 1e-10, where=tag, pathways=len(pws))
         ctx.label("pathways=%d" % min(len(pws), 50))
+        if case.get("reaverage") and lab is not None:
+            # the same pathway objects averaged again after the lab object got other polarisations
+            p2 = [pols[1], pols[3], pols[0], pols[2]]
+
+            def again():
+                lab.set_pulse_polarizations(pulse_polarizations=(p2[0], p2[1], p2[2]), detection_polarization=p2[3])
+                for p in pws:
+                    p.orientational_averaging(lab)
+                return [complex(p.pref) for p in pws]
+            ok, prefs = guarded(ctx, "response", again, tag + "/re-averaged")
+            if ok:
+                worst = 0.0
+                for p, pref in zip(pws, prefs):
+                    dm = numpy.array(p.dmoments, dtype=float)[:4]
+                    n0 = int(p.transitions[0, 1])
+                    sign = -1.0 if "f" in str(p.pathway_name) else 1.0
+                    want = sign * orient_average(p2, dm) * float(numpy.real(rho0[n0, n0])) * p.evolfac
+                    sc = float(numpy.prod([numpy.linalg.norm(x) for x in dm]))
+                    worst = max(worst, abs(pref - want) / max(sc, 1e-300))
+                ctx.bound("orientational-prefactor", worst, 1e-10, where=tag + "/re-averaged-after-lab-change",
+                          pathways=len(pws))
         return
 
     if kind == "symmetry":
